@@ -615,6 +615,34 @@ func ruleLocalIdx(c *Ctx) {
 			c.Undecided(fn+":paths", p.Pos(fd), "too many paths")
 			continue
 		}
+		// every loop once more from a fresh state at its head: two unrolled rounds from the function entry prove a
+		// capacity obligation only for the first two rounds (`stack[:len(stack)+1]` with len 1, 2 against cap 100), one
+		// round from an arbitrary state proves it for all of them
+		ast.Inspect(fd.Body, func(nd ast.Node) bool {
+			var loop ast.Stmt
+			switch x := nd.(type) {
+			case *ast.FuncLit:
+				return false
+			case *ast.ForStmt:
+				loop = x
+			case *ast.RangeStmt:
+				loop = x
+			}
+			if loop == nil {
+				return true
+			}
+			head := fg.LoopHead(loop)
+			if head < 0 {
+				return true
+			}
+			seg, okSeg := fg.EnumSegment(head, 0, map[int]bool{head: true}, 100000)
+			if !okSeg {
+				c.Undecided(fn+":loop-paths", p.Pos(loop), "too many paths through one loop round")
+				return true
+			}
+			paths = append(paths, seg...)
+			return true
+		})
 		sps, accs := symPathsWithAccess(p, fd, paths, nil)
 		extra := map[string]bool{}
 		for n := range nn {
